@@ -84,7 +84,9 @@ PROPS = {
         "drivers": [drv("conv", "debug"), drv("conv", "release", tiers=T)],
     },
     "C11": {
-        "mc": L0_QUICK + L0_THOROUGH,
+        "mc": L0_QUICK + L0_THOROUGH + [
+            algo("Roots.tla", "Roots_q.cfg"), algo("Roots.tla", "Roots_cal1.cfg", expect="violation"),
+            algo("Roots.tla", "Roots_cal2.cfg", expect="violation"), algo("Roots.tla", "Roots_t.cfg", workers=14, heap="10g", tiers=T)],
         "drivers": [drv("roots", "debug"), drv("roots", "debug", features=["rand", "serde"]), drv("roots", "release", tiers=T)],
     },
     "C12": {
